@@ -1,7 +1,9 @@
+import HvsrVerif.Drv.C02
 import HvsrVerif.Drv.C08
 import HvsrVerif.Drv.C16
 import HvsrVerif.Drv.HV
 import HvsrVerif.Drv.Loop
+import HvsrVerif.Drv.Proc
 /-!
 # `hvsrdrv`: line-protocol driver executing the models at `Float`
 
@@ -13,10 +15,11 @@ open HV.Proto HV.Drv
 def dispatch (op : String) : Option (P String) :=
   match op with
   | "peak" => some peak
+  | "smooth" => some smooth
   | "sesame.rel" => some sesameRel
   | "sesame.cla" => some sesameCla
   | "sesame.band" => some sesameBand
-  | _ => none
+  | _ => opsProc op
 
 def handle (st : Store) (line : String) : Store × String :=
   match tokens line with
